@@ -149,7 +149,14 @@ impl BarState {
 
     pub(crate) fn update_estimate_and_draw(&mut self, now: Instant) {
         let pos = self.state.pos.pos.load(Ordering::Relaxed);
-        self.state.est.record(pos, now);
+        if self.state.pos.take_rewound() {
+            // A backwards seek restarts the estimate. The sampled positions alone do not always
+            // show it: the seek may end above the last position the estimator has sampled.
+            self.state.est.prev_steps = pos;
+            self.state.est.reset(now);
+        } else {
+            self.state.est.record(pos, now);
+        }
 
         for tracker in self.style.format_map.values_mut() {
             tracker.tick(&self.state, now);
@@ -544,6 +551,8 @@ pub(crate) struct AtomicPosition {
     capacity: AtomicU8,
     prev: AtomicU64,
     start: Instant,
+    /// Set by a `set()` that moved the position backwards; consumed by the next estimator update
+    rewound: AtomicU8,
 }
 
 impl AtomicPosition {
@@ -553,6 +562,7 @@ impl AtomicPosition {
             capacity: AtomicU8::new(MAX_BURST),
             prev: AtomicU64::new(0),
             start: Instant::now(),
+            rewound: AtomicU8::new(0),
         }
     }
 
@@ -593,6 +603,8 @@ impl AtomicPosition {
 
     fn reset(&self, now: Instant) {
         self.set(0);
+        // The estimator is reset along with the position
+        self.rewound.store(0, Ordering::Release);
         let elapsed = (now.saturating_duration_since(self.start)).as_nanos() as u64;
         self.prev.store(elapsed, Ordering::Release);
     }
@@ -606,7 +618,14 @@ impl AtomicPosition {
     }
 
     pub(crate) fn set(&self, pos: u64) {
-        self.pos.store(pos, Ordering::Release);
+        if pos < self.pos.swap(pos, Ordering::AcqRel) {
+            self.rewound.store(1, Ordering::Release);
+        }
+    }
+
+    /// Whether the position was set backwards since the last call
+    fn take_rewound(&self) -> bool {
+        self.rewound.load(Ordering::Acquire) != 0 && self.rewound.swap(0, Ordering::AcqRel) != 0
     }
 }
 
